@@ -4,7 +4,7 @@ import win, vlib
 
 ASSUME = ["with ALLOWEDLATENESS > 0 only the on-time rows are judged here (every delivery of an interval reports the same on-time rows, each in one interval); late updates are C02's subject",
           "window output buffer never overflows (<= 20 pending batches vs capacity)", "single producer: Emit order = ingest order",
-          "IDLETIMEOUT unset", "processing time: a row's engine-side timestamp is bracketed by the wall clock before Emit and at the end of window.Add; a row whose bracket straddles an interval boundary is accepted in either interval; rows still unreported 3 s + (held+3) window sizes after the last Emit count as lost",
+          "IDLETIMEOUT unset except in the live-source scenarios (ties and stragglers arriving faster than the timeout)", "processing time: a row's engine-side timestamp is bracketed by the wall clock before Emit and at the end of window.Add; a row whose bracket straddles an interval boundary is accepted in either interval; rows still unreported 3 s + (held+3) window sizes after the last Emit count as lost",
           "results observed through a synchronous sink"]
 
 
@@ -27,7 +27,10 @@ def run(tier):
         post = lambda res, rng, vh, scen: win.proc_stage(res, rng, vh, scen, nmodel=120, nfree=12)
     else:
         post = lambda res, rng, vh, scen: win.proc_stage(res, rng, vh, scen, maxnow=6, maxev=4, nmodel=1500, nfree=100, mc=dict(size=3, maxnow=10, maxev=5))
-    return win.run_family("C01", tier, plan, free, ASSUME, post=post, scope=("ScopeOnTimeOnly",))
+    # IDLETIMEOUT: a live source (rows keep arriving, most of them not above the maximum seen so far) is not idle - its interval does not fire
+    # early and loses no on-time row
+    idle = [("tumbling", dict(size=10, moo=2), 6 if tier == "quick" else 50)]
+    return win.run_family("C01", tier, plan, free, ASSUME, post=post, scope=("ScopeOnTimeOnly",), idle_plan=idle)
 
 
 if __name__ == "__main__":
